@@ -96,6 +96,28 @@ public class F64 {
         return t.elems;
     }
 
+    /**
+     * Identity on sequences (the TLA+ definition is FSeq(s) == s), but evaluated eagerly and deeply:
+     * TLC represents [k \in 1..n |-> e] lazily and would re-evaluate e at every application.
+     */
+    public static Value FSeq(final Value s) {
+        return force(s);
+    }
+
+    static Value force(final Value s) {
+        final Value t = s.toTuple();
+        if (t == null) {
+            return s;
+        }
+        final Value[] in = ((TupleValue) t).elems;
+        final Value[] out = new Value[in.length];
+        for (int k = 0; k < in.length; k++) {
+            final Value e = in[k];
+            out[k] = (e instanceof IntValue || e instanceof BoolValue || e instanceof StringValue) ? e : force(e);
+        }
+        return new TupleValue(out);
+    }
+
     /** left-to-right sum, as a Rust fold would do */
     public static Value FSum(final Value s) {
         double acc = 0.0;
